@@ -104,21 +104,18 @@ def all_candidates(spec, cap=4000):
     per_task = [placements(t, H) for t in spec["tasks"]]
     if any(not p for p in per_task):
         return iter(()), True
-    size = space_size(spec, H)
-    exhaustive = size <= cap
+    if space_size(spec, H) > 4 * cap:
+        return iter(()), False  # clearly too large: the caller samples instead
 
-    def gen():
-        n = 0
-        for places in itertools.product(*per_task):
-            pmap = {t["name"]: p for t, p in zip(spec["tasks"], places)}
-            per_assign = [assignment_choices(spec, a, pmap[a["task"]]) for a in spec["assign"]]
-            for assigns in itertools.product(*per_assign):
-                yield make_candidate(spec, H, places, [copy.deepcopy(x) for x in assigns])
-                n += 1
-                if n >= cap:
-                    return
-
-    return gen(), exhaustive
+    out = []
+    for places in itertools.product(*per_task):
+        pmap = {t["name"]: p for t, p in zip(spec["tasks"], places)}
+        per_assign = [assignment_choices(spec, a, pmap[a["task"]]) for a in spec["assign"]]
+        for assigns in itertools.product(*per_assign):
+            out.append(make_candidate(spec, H, places, [copy.deepcopy(x) for x in assigns]))
+            if len(out) > cap:
+                return iter(()), False  # not enumerable within the cap: never reported as exhaustive
+    return iter(out), True
 
 
 def decode_candidate(spec, ints):
